@@ -18,7 +18,7 @@ from typing import Dict, List, Optional, Tuple, Any, Callable
 from . import sym
 from .sym import Rat, C, Unknown
 from .values import (Val, Num, Const, Tup, Kw, Term, Fn, Obj, P, Gam, Ref, gamma, veq, p_not, TRUE, FALSE, NONE,
-                     arr_param, scalar_param, term_as_num, fresh_serial, walk_vals, contradicts)
+                     arr_param, scalar_param, term_as_num, fresh_serial, walk_vals, contradicts, _len_of)
 from .model import Program, FuncInfo, ClassInfo, ModuleInfo, AnalysisError
 
 
@@ -493,6 +493,8 @@ class Evaluator:
             pre = self._prefix_store(base, idx, v)
             if pre is None:
                 pre = self._whole_store(base, idx, v)
+            if pre is None and not aug:
+                pre = self._segment_store(base, idx, v)
             if pre is not None:
                 newv = pre
             self.rebind(t.value, newv, st)
@@ -518,6 +520,69 @@ class Evaluator:
         from .dtypes import dtype_of
         out.dt = dtype_of(base)
         return out
+
+    def _segment_store(self, base, idx, v) -> Optional[Val]:
+        """`buf[lo:hi] = v` on a buffer known as a concatenation of segments, where lo is the start of a still unfilled segment and the stored piece
+        (an array of hi - lo elements, or a scalar broadcast over hi - lo slots) fits into it: the segment is split into the piece and its unfilled rest"""
+        bt = arr_identity(base) if isinstance(base, Num) else base
+        bt = _as_fill(bt)
+        if not (isinstance(idx, Term) and idx.head == 'slice' and len(idx.args) == 3):
+            return None
+        segs = list(bt.args) if isinstance(bt, Term) and bt.head == 'cat' else ([bt] if isinstance(bt, Term) and bt.head == 'fill' else None)
+        if not segs:
+            return None
+        lens = []
+        for sg in segs:
+            sg_ = _as_fill(sg)
+            ln = sg_.args[1].r if isinstance(sg_, Term) and sg_.head == 'fill' and isinstance(sg_.args[1], Num) else _len_of(sg)
+            if ln is None:
+                return None
+            lens.append(ln)
+        total = C(0)
+        for ln in lens:
+            total = total + ln
+        lo, hi, step = idx.args
+        if not (isinstance(step, Const) and step.v is None):
+            return None
+        if isinstance(lo, Const) and lo.v is None:
+            lo_r = C(0)
+        elif isinstance(lo, Num) and lo.length is None:
+            lo_r = total + lo.r if neg_const_index(lo.r) else lo.r
+        else:
+            return None
+        if isinstance(hi, Const) and hi.v is None:
+            hi_r = total
+        elif isinstance(hi, Num) and hi.length is None:
+            hi_r = total + hi.r if neg_const_index(hi.r) else hi.r
+        else:
+            return None
+        m = hi_r - lo_r
+        if m.is_zero():
+            return base                 # a store into an empty slice changes nothing
+        off = C(0)
+        for k, (sg, ln) in enumerate(zip(segs, lens)):
+            sg_ = _as_fill(sg)
+            if off == lo_r and isinstance(sg_, Term) and sg_.head == 'fill' and isinstance(sg_.args[0], Const) and sg_.args[0].v == '<uninitialised>':
+                rest = ln - m
+                if not (rest.is_const() and rest.const_value() >= 0) and not (rest.d.t == {(): 1} and all(c_ >= 0 for c_ in rest.n.t.values())):
+                    return None         # the piece is not known to fit into the segment
+                if isinstance(v, Num) and v.length is not None:
+                    if not (v.length == m):
+                        return None
+                    piece = v
+                elif isinstance(v, Term) and v.kind in ('ndarray', 'list'):
+                    piece = self.as_num(v, True)
+                    if piece is None or piece.length is None or not (piece.length == m):
+                        return None
+                elif isinstance(v, Num):
+                    piece = Num(v.r, m, 'ndarray')          # a scalar broadcast over the slice: m copies of it
+                else:
+                    return None
+                new = [piece] + ([] if rest.is_zero() else [Term('fill', (sg_.args[0], Num(rest)), kind='ndarray')])
+                out = mk_cat(segs[:k] + new + segs[k + 1:])
+                return term_as_num(out, True, 'ndarray') if isinstance(base, Num) else out
+            off = off + ln
+        return None
 
     def _prefix_store(self, base, idx, v) -> Optional[Val]:
         """`buf[:L] = a` on a freshly filled buffer of N copies of c, with L = len(a): the array a ++ fill(c, N - L)"""
